@@ -5,6 +5,7 @@ package main
 // spellings, unknown extra fields, null fields, malformed addresses) through the same loader and stage.
 
 import (
+	"sync"
 	"bytes"
 	"context"
 	"encoding/hex"
@@ -73,49 +74,71 @@ func runArpC(linesHex, gwHex, reqs string) string {
 		if gwHex != "-" {
 			gw = net.HardwareAddr(hx.UnHex(gwHex))
 		}
-		rs := parseReqs(reqs)
-		earlier := map[*scan.Request]error{}
-		for _, r := range rs {
-			earlier[r] = r.Err
+		// the same queries from several goroutines at once over the ONE cache (as the generator workers of a
+		// scan do): every stream must see what a single stream sees
+		const streams = 4
+		outs := make([]string, streams)
+		var wg sync.WaitGroup
+		for k := 0; k < streams; k++ {
+			wg.Add(1)
+			go func(k int) {
+				defer wg.Done()
+				outs[k] = queryStream(cache, gw, reqs)
+			}(k)
 		}
-		g := arp.NewCacheRequestGenerator(&fixedGen{rs}, gw, cache)
-		ch, err := g.GenerateRequests(context.Background(), &scan.Range{})
-		if err != nil {
-			out = "GENERR"
-			return
-		}
-		var parts []string
-		timeout := time.After(10 * time.Second)
-		for done := false; !done; {
-			select {
-			case r, ok := <-ch:
-				if !ok {
-					done = true
-					break
-				}
-				switch {
-				case r.Err != nil && earlier[r] != nil && r.Err == earlier[r]:
-					parts = append(parts, "e")
-				case r.Err != nil:
-					parts = append(parts, "n")
-				default:
-					parts = append(parts, "m"+hex.EncodeToString(r.DstMAC))
-				}
-			case <-timeout:
-				parts = append(parts, "TIMEOUT")
-				done = true
+		wg.Wait()
+		out = outs[0]
+		for k := 1; k < streams; k++ {
+			if outs[k] != outs[0] {
+				out = outs[0] + ",CONCURRENT-STREAM-DIFFERS:" + outs[k]
+				break
 			}
-		}
-		if len(parts) == 0 {
-			out = "-"
-		} else {
-			out = strings.Join(parts, ",")
 		}
 	})
 	if p {
 		return "PANIC " + strings.ReplaceAll(msg, "\t", " ")
 	}
 	return out
+}
+
+// queryStream runs one request list through the real cache request generator
+func queryStream(cache *arp.Cache, gw net.HardwareAddr, reqs string) string {
+	rs := parseReqs(reqs)
+	earlier := map[*scan.Request]error{}
+	for _, r := range rs {
+		earlier[r] = r.Err
+	}
+	g := arp.NewCacheRequestGenerator(&fixedGen{rs}, gw, cache)
+	ch, err := g.GenerateRequests(context.Background(), &scan.Range{})
+	if err != nil {
+		return "GENERR"
+	}
+	var parts []string
+	timeout := time.After(10 * time.Second)
+	for done := false; !done; {
+		select {
+		case r, ok := <-ch:
+			if !ok {
+				done = true
+				break
+			}
+			switch {
+			case r.Err != nil && earlier[r] != nil && r.Err == earlier[r]:
+				parts = append(parts, "e")
+			case r.Err != nil:
+				parts = append(parts, "n")
+			default:
+				parts = append(parts, "m"+hex.EncodeToString(r.DstMAC))
+			}
+		case <-timeout:
+			parts = append(parts, "TIMEOUT")
+			done = true
+		}
+	}
+	if len(parts) == 0 {
+		return "-"
+	}
+	return strings.Join(parts, ",")
 }
 
 // arpReply: Ethernet + ARP reply frame
@@ -361,5 +384,32 @@ func arpcacheComponent(r *hx.Run) {
 			lines = append(lines, line)
 		}
 		emit("B", lines, cls, known)
+	}
+	// ---- C: long cache files (several read-buffer lengths): every entry must still be found afterwards,
+	// whatever memory the reader re-used while loading
+	nC := 8
+	if r.Tier == "thorough" {
+		nC = 80
+	}
+	for i := 0; i < nC; i++ {
+		n := 70 + rng.Intn(400)
+		var lines []string
+		var known []net.IP
+		seen := map[string]bool{}
+		for len(lines) < n {
+			ip := net.IPv4(10, byte(rng.Intn(4)), byte(rng.Intn(256)), byte(rng.Intn(256)))
+			if seen[ip.String()] {
+				continue
+			}
+			seen[ip.String()] = true
+			known = append(known, ip)
+			l := fmt.Sprintf(`{"ip":"%s","mac":"%s"}`, ip, rndMAC())
+			if rng.Intn(3) == 0 {
+				l = fmt.Sprintf(`{"ip":"%s","mac":"%s","vendor":"%s"}`, ip, rndMAC(), strings.Repeat("v", rng.Intn(40)))
+			}
+			lines = append(lines, l)
+		}
+		// ask mostly for the earliest entries
+		emit("C", lines, map[string]bool{"long": true}, known[:16])
 	}
 }
